@@ -18,10 +18,12 @@ Definition lines_of (r : res vdoc) : list (list vline) := match r with Ok d => m
 Definition plain_run (t : str) : vrun := mkVrun t None 0%Z None.
 
 (* ---- repr_vline ---- *)
-(* voice names: no '>' (it would end the tag) *)
+(* voice names: no '>' (it would end the tag: the writer emits its character reference -- library fix of finding F2 of
+   notes/C07-ssa-vtt.md; before it the rest of the name landed in the text: voice A, text B>x -- and the reader does not
+   decode references inside an annotation, so the NAME still comes back changed; the text is intact) *)
 Example needs_voice_no_gt :
   repr_vline (mkVline [plain_run (b "x")] (b "A>B")) = false /\
-  lines_of (rt (doc1 (mkVline [plain_run (b "x")] (b "A>B"))) [] []) = [[mkVline [plain_run (b "B>x")] (b "A")]].
+  lines_of (rt (doc1 (mkVline [plain_run (b "x")] (b "A>B"))) [] []) = [[mkVline [plain_run (b "x")] (b "A&gt;B")]].
 Proof. split; vm_compute; reflexivity. Qed.
 (* voice names are trimmed by the reader *)
 Example needs_voice_trimmed :
